@@ -286,6 +286,18 @@ PROPS = {
         trusted_base=COMMON_TB + ["extract/main.go entrypoints: go/ast reading of deferred recover / parameter indexing / callees", "helpers listed in CE.Api.safeCallees (constructors, bufio/bytes wrappers, the two dispatch switches) are assumed not to panic", "Go runtime: recover() stops a panic raised in the same goroutine"],
         technique="Lean 4 theorems (panic-propagation soundness over regenerated entry-point facts; decoder progress by induction), plus watchdog / address-space-limited execution of every entry point as supporting observation for run-time fatal errors",
     ),
+    "C08": dict(
+        claim="Lean model of the CBE reader's buffer (Reader.readIntoBuffer / growBufferToward, statement by statement) as a function of the lengths a document DECLARES, the bytes it HOLDS and the way the io.Reader delivers them; theorem reader_buffer_paid_by_arrived_bytes: for every sequence of declared lengths however large, every document and every delivery schedule, the bytes ever allocated for the buffer are at most 4 x the bytes that arrived and the buffer is never longer than max(127, 2 x arrived) (invariant proved by induction over the read loop and over the sequence of reads); the model of the reader before fix 612489c violates the bound (old_reader_reserved_the_declared_length). "
+              "Decoder steps: the CBE decoder model's main loop runs at most once per document byte and every chunk header consumes a byte (CE.Cbe.Progress: loopIterations_le, decodeChunks_len, decodeOne_progress). "
+              "Correspondence (COST.READ): Reader.ReadBytes on a fresh reader (hook VerifReadBytes) for declared counts 0 .. 2^40 over documents of 0-3000 bytes delivered 1-5000 bytes per Read: success/EOF and the buffer capacity afterwards equal the model's. "
+              "Oracle on the whole pipeline: 81 adversarial document families (an inflated length in every array/string/media/identifier/big-integer header, alone and after honest chunks; runs of nested lists/maps/nodes/edges/records; many tiny tokens, markers, pairs, comments; long strings, escapes, verbatim text, arrays, identifiers; numbers with absurd exponents; garbage) at size n and 4n, 5 decode/unmarshal modes, MaxArraySizeBytes in {64, 4 KiB, 1 MiB, 1 GiB}: bytes allocated during one decode (runtime.MemStats.TotalAlloc) <= 4096*len + 2*min(len, MaxArraySizeBytes) + 4 MiB and alloc(4n) <= 6*alloc(n) + 4 MiB; time: a decode must end within 60 s and a confirmed more-than-10-fold slowdown from n to 4n (measured at >= 250 ms) is reported",
+        note="partial (level other): allocation of the event/rules/builder pipeline and of the ANTLR-generated CTE lexer/parser (which parses the whole document before any rule runs) is measured, not proved; wall-clock time is an observation. Six known findings (recursive block-comment lexer rule; math/big scanning of unboundedly long number literals: the configured digit-count limits are read nowhere). Two defects repaired in this session: fbf3506 (depth limit applied before the recursive-descent parse) and 683b3bc (no single-token repair after a syntax error: quadratic in nesting depth); 612489c (buffer sized by the declared length) was repaired earlier",
+        level="other", n_quick=3200, n_thorough=48000, shards=16, timeout_quick=900, timeout_thorough=14000, rlimit_as_gb=10,
+        lean_modules=["CE.Props.C08", "CE.Cbe.CostProofs", "CE.Cbe.Progress"],
+        rule="case i: i mod 4 = 3: one ReadBytes(count) with random count/document length/delivery schedule (model correspondence); otherwise family (i) x scale in {64, 1000, 4000, 20000 (thorough: 100000, 250000)} x announced length in {2^31-1, 2^32, 2^40, 2^62-1, 10^5, 2^20} x MaxArraySizeBytes x mode; distinct by parameters",
+        trusted_base=COMMON_TB + ["runtime.MemStats.TotalAlloc as the measure of allocation", "hook cbe.VerifReadBytes (build tag verif)", "math/big, apd, strconv and the ANTLR runtime are external code: measured only"],
+        technique="Lean 4 theorems over a model of the reader's buffer growth (invariant by induction) and of decoder progress, tied by the COST.READ correspondence; allocation/time measurement of adversarial families as supporting observation",
+    ),
     # NEW-ENTRIES-ABOVE
 }
 
